@@ -69,6 +69,12 @@ theorem promoteAll_triple_symmetric : ∀ a ∈ all, ∀ b ∈ all, ∀ c ∈ al
     promoteAll [a, b, c] = promoteAll [b, a, c] ∧ promoteAll [a, b, c] = promoteAll [a, c, b] ∧
     promoteAll [a, b, c] = promoteAll [c, b, a] := by decide +kernel
 
+/-- the result absorbs every one of the types given (promoting it with any input changes nothing): it is an upper bound
+of the inputs in numpy's promotion order - so every coefficient can be cast into the stored type by a promotion -/
+theorem promoteAll_triple_upper_bound : ∀ a ∈ all, ∀ b ∈ all, ∀ c ∈ all,
+    ((promoteAll [a, b, c]).map fun r => decide (promote r a = r ∧ promote r b = r ∧ promote r c = r)) = some true := by
+  decide +kernel
+
 /-- it is not the left fold of the pairwise table: the fold over int8, uint16, complex64 ends in complex128 (int8 and
 uint16 meet in int32 first), numpy - and the constructor, which asks numpy - answer complex64; the fold even depends on
 the order -/
